@@ -229,6 +229,51 @@ func checkC09(c *Ctx) {
 		})
 	}
 
+	// ---- C09.17 "nothing deadlocks", in the probe the ingest workers share: the LRU library calls the cache's eviction
+	// callback from inside Add / Remove / Resize, and the callback takes the cache mutex - so no call into the LRU is
+	// made while that mutex may be held (in any mode: a read lock held by the caller blocks the callback's write lock)
+	r.Rule("C09.17", "the liveness LRU is never called while the cache mutex may be held (its eviction callback takes it)", 3)
+	{
+		n := 0
+		for _, f := range c.funcsOfPkgs("pkg/station/liveness") {
+			if f.Blocks == nil || f.Signature.Recv() == nil || !strings.HasSuffix(typeShort(f.Signature.Recv().Type()), "liveness.lruCache") {
+				continue
+			}
+			lf := analyseLocks(f, lockSet{})
+			eachInstr(f, func(in ssa.Instruction) {
+				call, ok := in.(*ssa.Call)
+				if !ok {
+					return
+				}
+				name := calleeName(&call.Call)
+				if !strings.Contains(name, "golang-lru") {
+					return
+				}
+				switch calleeShort(&call.Call) {
+				case "Add", "Remove", "Resize", "RemoveOldest", "Purge", "ContainsOrAdd", "PeekOrAdd":
+				default:
+					return // Get / Contains / Len / Keys do not evict
+				}
+				n++
+				held := ""
+				for k := range realLocks(lf.May[in]) {
+					if strings.Contains(k, ".m/") {
+						held = k
+					}
+				}
+				r.Check(held == "", "C09.17", fnName(f)+": "+shortName(name)+" with the cache mutex released", in.Pos(), fnName(f), "no lock of the cache in the may-held set",
+					"the LRU is modified while "+held+" is held: when the call evicts an entry the library runs the eviction callback, which takes the cache's write lock - the caller deadlocks on its own lock, the waiting writer blocks every later reader, and every ingest worker hangs in the liveness probe")
+			})
+		}
+		if n == 0 {
+			r.Unk("C09.17", "calls into the LRU library", token.NoPos, "", "none found in the methods of lruCache")
+		}
+	}
+	// ---- C09.18 the policy lists the ingest workers read without a lock are replaced whole, never rebuilt in place
+	// (shared with C19.2 / C06.9)
+	r.Rule("C09.18", "a reload swaps in the parsed policy lists of the new configuration; it never re-parses into the live object", 2)
+	checkReloadTakeover(c, "C09.18")
+
 	// ---- C09.15 shutdown: a goroutine is counted before it is started - Add inside the goroutine races with Wait
 	r.Rule("C09.15", "no goroutine registers itself with the wait group that waits for it", 1)
 	{
